@@ -115,7 +115,9 @@ func VerifyJSON(signingName string, keyID KeyID, publicKey ed25519.PublicKey, me
 	// This allows us to add and remove the top-level keys from the JSON object.
 	// It also ensures that the JSON is actually a valid JSON object.
 	var object map[string]*json.RawMessage
-	var signatures map[string]map[KeyID]spec.Base64Bytes
+	// Only the signature that is asked about is decoded: what other entities (or
+	// the same entity under another key ID) put next to it does not matter.
+	var signatures map[string]map[KeyID]json.RawMessage
 	if err := json.Unmarshal(message, &object); err != nil {
 		return err
 	}
@@ -127,9 +129,13 @@ func VerifyJSON(signingName string, keyID KeyID, publicKey ed25519.PublicKey, me
 	if err := json.Unmarshal(*object["signatures"], &signatures); err != nil {
 		return err
 	}
-	signature, ok := signatures[signingName][keyID]
+	rawSignature, ok := signatures[signingName][keyID]
 	if !ok {
 		return fmt.Errorf("No signature from %q with ID %q", signingName, keyID)
+	}
+	var signature spec.Base64Bytes
+	if err := json.Unmarshal(rawSignature, &signature); err != nil {
+		return fmt.Errorf("Bad signature encoding from %q with ID %q: %w", signingName, keyID, err)
 	}
 	if len(signature) != ed25519.SignatureSize {
 		return fmt.Errorf("Bad signature length from %q with ID %q", signingName, keyID)
